@@ -157,6 +157,19 @@ def r14_2(run):
     run.ob("R14.2", loc(fi, st), fi.short, "a seed that still mismatches after broadcasting is rejected with an error", ok,
            "a raise is edge-dominated by the true edge of a shape test" if ok else "no rejection path for unbroadcastable seeds")
     # (4) no gradient is written on rejection: no Tensor._grad value-store can precede a raise
+    def _propagates_later_failure(r):
+        """`raise` / `raise e` in a handler whose try-block starts after the store: it passes on a failure of back-propagation itself"""
+        s = cfg1.stmt[r]
+        h = getattr(s, "_parent", None)
+        while h is not None and not isinstance(h, (ast.ExceptHandler, ast.FunctionDef)):
+            h = getattr(h, "_parent", None)
+        if not isinstance(h, ast.ExceptHandler) or not (s.exc is None or (isinstance(s.exc, ast.Name) and s.exc.id == h.name)):
+            return False
+        t = getattr(h, "_parent", None)
+        first = cfg1.stmt_node_containing(t.body[0]) if isinstance(t, ast.Try) else None
+        return first is not None and ns1 is not None and cfg1.dominates(ns1, first)
+
+    raises = [r for r in raises if not _propagates_later_failure(r)]
     for r in raises:
         before = nx.ancestors(cfg1.g, r)
         ok = ns1 not in before
